@@ -17,6 +17,9 @@ type Op struct {
 	// Leaf edits are applied in every reached state like all the others, but the states they lead to are
 	// not expanded further (quick tier only; in the thorough tier every edit is a full member of the alphabet).
 	Leaf bool `json:"leaf,omitempty"`
+	// Only: the edit addresses a path name outside pathNames and is applied only in the states reached from a
+	// base configuration that declares that name (bases.go); "" = applied everywhere.
+	Only string `json:"only,omitempty"`
 }
 
 func (o Op) String() string {
@@ -152,6 +155,31 @@ func alphabet(thorough bool) []Op {
 	}
 	for _, p := range zeroDefaults {
 		ops = append(ops, Op{Kind: "pathdefaults", Payload: p, Leaf: leaf})
+	}
+	// a payload refused by the decoder AFTER a valid field has been decoded (the unknown field comes second in the
+	// text): the request must fail as a whole. For patch, global and pathdefaults a refused payload that carries
+	// nothing else is invisible when a handler goes on after the refusal (an empty patch changes nothing); add and
+	// replace show it with {"unknownField":1} alone. Failing edits have no successor: leaf or not is the same.
+	ops = append(ops,
+		Op{Kind: "patch", Name: "p1", Payload: `{"maxReaders":2,"unknownField":1}`, Leaf: leaf},
+		Op{Kind: "global", Payload: `{"logLevel":"debug","unknownField":1}`, Leaf: leaf},
+		Op{Kind: "pathdefaults", Payload: `{"maxReaders":3,"unknownField":1}`, Leaf: leaf})
+	// edits on the names that only some base configurations declare (bases.go); they come after everything else so
+	// that the indices of the other edits do not depend on them. all_others is an alias of the regexp ~^.*$.
+	for _, n := range extraNames {
+		pl := pathPayloads
+		if !thorough {
+			pl = []string{pathPayloads[0], pathPayloads[1], pathPayloads[3], pathPayloads[4], pathPayloads[5], pathPayloads[6]}
+		}
+		for _, k := range []string{"add", "patch", "replace"} {
+			for _, p := range pl {
+				ops = append(ops, Op{Kind: k, Name: n, Payload: p, Only: n})
+			}
+		}
+		ops = append(ops, Op{Kind: "delete", Name: n, Only: n})
+		for _, k := range []string{"patch", "replace"} {
+			ops = append(ops, Op{Kind: k, Name: n, Payload: zeroPath[0], Leaf: leaf, Only: n})
+		}
 	}
 	return ops
 }
